@@ -27,6 +27,11 @@ def main():
     r = sh("git -C /repo worktree add -q --detach %s HEAD" % wt)
     assert r.returncode == 0, r.stderr
     out = dict(tag=tag, repo_head=sh("git -C /repo rev-parse --short HEAD").stdout.strip(), checks={})
+    if (d / "result.json").exists() and sys.argv[2:]:        # re-run of selected checks: keep the other results
+        try:
+            out["checks"] = json.loads((d / "result.json").read_text()).get("checks", {})
+        except Exception:      # noqa: BLE001
+            pass
     try:
         r = sh("git -C %s apply %s" % (wt, d / "patch.diff"))
         out["patch_applies"] = r.returncode == 0
